@@ -8,3 +8,8 @@ package l4regexp
 //@ requires wfm(cx)
 //@ safety C04
 //@ implements[C06] (m github.com/mholt/caddy-l4/layer4.ConnMatcher) Match
+
+//@ requires[inv] m.compiled != nil
+//@ ensures[C06] err == nil || err == layer4.ErrConsumedAllPrefetchedBytes
+//@ ensures[C06] (err == layer4.ErrConsumedAllPrefetchedBytes) == (old(avail(cx)) < int(m.Count))
+//@ ensures[C06] err != nil ==> !matched
